@@ -1,6 +1,6 @@
 (** Extraction of the executable models.  Only [ExtrOcamlBasic] is used: [N], [positive],
     [nat] stay the extracted inductive datatypes. *)
-From updog Require Import Prelude LRU Index.
+From updog Require Import Prelude LRU Index QParser CacheEval Adapters Files DriverSM Csv.
 Require Import ExtrOcamlBasic.
 Extraction Language OCaml.
 
@@ -12,6 +12,8 @@ Definition m_get_schema := get_schema.
 Definition m_add_rows_mem (rows : list row) := (w_add_rows H_enc (w_init) rows).1.
 Definition m_add_rows_big (rows : list row) := (b_add_rows H_enc (b_init) rows).1.
 
-Extraction "model.ml" lru_observe
+Definition m_execute_q := execute_q H_enc.
+
+Extraction "model.ml" lru_observe m_execute_q
   m_build_store m_open_index m_execute m_get_schema m_add_rows_mem m_add_rows_big
   spec_execute spec_schema.
